@@ -56,11 +56,9 @@ def scan_sources():
     """returns a list of problems found in coq/theories (and _CoqProject)"""
     problems = []
     root = os.path.join(engine.COQ, 'theories')
-    files = []
-    for d, _, fs in os.walk(root):
-        for f in fs:
-            if f.endswith('.v'):
-                files.append(os.path.join(d, f))
+    # the development = the files listed in _CoqProject (scratch files of unfinished work are not part of it)
+    files = [os.path.join(engine.COQ, ln.strip()) for ln in open(os.path.join(engine.COQ, '_CoqProject'))
+             if ln.strip().endswith('.v')]
     for path in sorted(files):
         src = strip_comments(open(path).read())
         rel = os.path.relpath(path, engine.COQ)
